@@ -31,7 +31,7 @@ var c11Unbound = reg("C11", "c11-unbound", checkC11Unbound)
 // that spell axis names.
 func genEnvBindings(t *rapid.T) map[string]string {
 	ns := map[string]string{}
-	cands := []string{"x", "y", "p", "q", "x2", "child", "self", "text", "a-b", "xml"}
+	cands := []string{"x", "y", "p", "q", "x2", "child", "self", "text", "a-b", "xml", ""}
 	for _, p := range cands {
 		switch rapid.IntRange(0, 3).Draw(t, "bind-"+p) {
 		case 0:
@@ -53,7 +53,9 @@ func genEnvBindings(t *rapid.T) map[string]string {
 func sortedKeys(m map[string]string) []string {
 	var out []string
 	for k := range m {
-		out = append(out, k)
+		if k != "" { // a binding for the empty prefix is never used as a prefix (XPath 1.0 has no default namespace)
+			out = append(out, k)
+		}
 	}
 	sort.Strings(out)
 	return out
